@@ -257,6 +257,11 @@ func cmdCheck(args []string) int {
 			defer wg.Done()
 			sem <- struct{}{}
 			defer func() { <-sem }()
+			if isKnownFinding(*verif, *prop, o.Name) {
+				// a recorded finding: one short attempt, no retry (it is reported as KNOWN-FINDING either way)
+				results[i] = solve(o, workdir, 3, false)
+				return
+			}
 			r := solve(o, workdir, *timeout, *tier == "thorough")
 			if r.Verdict == "unknown" && atomic.AddInt32(&retries, 1) <= 8 {
 				r2 := solve(o, workdir, *timeout*3, *tier == "thorough")
@@ -412,6 +417,33 @@ func cmdCheck(args []string) int {
 		os.WriteFile(filepath.Join(*verif, "evidence", *prop+".json"), b, 0o644)
 	}
 	return exit
+}
+
+var knownCache []knownFinding
+var knownLoaded bool
+var knownMu sync.Mutex
+
+// isKnownFinding: is this obligation listed as a recorded (unrepaired) finding?
+func isKnownFinding(verif, prop, name string) bool {
+	knownMu.Lock()
+	defer knownMu.Unlock()
+	if !knownLoaded {
+		knownLoaded = true
+		if b, err := os.ReadFile(filepath.Join(verif, "known_findings.jsonl")); err == nil {
+			for _, ln := range strings.Split(string(b), "\n") {
+				var k knownFinding
+				if json.Unmarshal([]byte(strings.TrimSpace(ln)), &k) == nil && k.Kind == "finding" {
+					knownCache = append(knownCache, k)
+				}
+			}
+		}
+	}
+	for _, k := range knownCache {
+		if k.Property == prop && (k.Obligation == name || (strings.HasSuffix(k.Obligation, "*") && strings.HasPrefix(name, strings.TrimSuffix(k.Obligation, "*")))) {
+			return true
+		}
+	}
+	return false
 }
 
 func round2(f float64) float64 { return float64(int(f*100+0.5)) / 100 }
